@@ -24,10 +24,10 @@ PY = "/venv/bin/python"
 
 OWNERS = {
     "utils/queue.py": ["C17"],
-    "helpers/timeouted.py": ["C16"],
-    "helpers/throttling.py": ["C15"],
-    "helpers/retries.py": ["C14"],
-    "helpers/caching.py": ["C12", "C13"],
+    "helpers/timeouted.py": ["C16", "C18"],
+    "helpers/throttling.py": ["C15", "C18"],
+    "helpers/retries.py": ["C14", "C18"],
+    "helpers/caching.py": ["C12", "C13", "C18"],
     "types/missing.py": ["C20"],
     "context/tasks.py": ["C06", "C07"],
     "context/disposables.py": ["C08"],
